@@ -321,6 +321,8 @@ func vecMergeOracle(seg segment.Segment, exp *ref.Content) string {
 		return m
 	}
 	for _, field := range []string{"v", "w", "f"} {
+		// >= 1000 vectors: clustered class, approximate by design -> soundness only
+		exact := exp.Vecs[field] == nil || len(exp.Vecs[field].Vecs) < 1000
 		for _, qv := range gridQueries {
 			for _, k := range []int64{1, 10} {
 				q := vecQuery{Field: field, Q: qv, K: k}
@@ -328,7 +330,7 @@ func vecMergeOracle(seg segment.Segment, exp *ref.Content) string {
 				if err != nil {
 					return fmt.Sprintf("%s: error %v", q, err)
 				}
-				if m := checkResult(exp, q, got, true); m != "" {
+				if m := checkResult(exp, q, got, exact); m != "" {
 					return fmt.Sprintf("%s: %s", q, m)
 				}
 			}
